@@ -359,7 +359,8 @@ def _gen_message(rng, kind):
             exp["body"] = h(body)
     elif body_kind == "chunked":
         spec = _chunked_body(rng)
-        headers.append((b"Transfer-Encoding", rng.choice([b"chunked", b"Chunked", b"CHUNKED"])))
+        headers.append((b"Transfer-Encoding", rng.choice([b"", b"", b" ", b"\t"]) + rng.choice([b"chunked", b"Chunked", b"CHUNKED", b"chunKED"])
+                        + rng.choice([b"", b"", b" ", b"\t "])))
         if rng.random() < 0.2:
             headers.append((b"Content-Length", b"999"))
         wire_body = K.build_wire(spec)
